@@ -2,6 +2,8 @@
 
 #![allow(dead_code)]
 mod alloc;
+mod c01;
+mod c01gen;
 mod c06;
 mod c13;
 mod c14;
@@ -24,12 +26,13 @@ use engine::{Engine, Tier};
 static GLOBAL: alloc::Counting = alloc::Counting;
 
 static C19: c19::C19 = c19::C19;
+static C01: c01::C01 = c01::C01;
 static C06: c06::C06 = c06::C06;
 static C13: c13::C13 = c13::C13;
 static C14: c14::C14 = c14::C14;
 
 fn engines() -> Vec<&'static dyn Engine> {
-    vec![&C06, &C13, &C14, &C19]
+    vec![&C01, &C06, &C13, &C14, &C19]
 }
 
 fn find(id: &str) -> Option<&'static dyn Engine> {
@@ -77,7 +80,8 @@ fn real_main(args: &[String]) -> i32 {
             let from = arg_val(args, "--from").and_then(|s| s.parse().ok()).unwrap_or(0);
             let to = arg_val(args, "--to").and_then(|s| s.parse().ok()).unwrap_or(0);
             let emit = args.iter().any(|a| a == "--emit-hashes");
-            runner::worker_main(e, tier, seed, from, to, emit)
+            let config = arg_val(args, "--config").unwrap_or("default").to_string();
+            runner::worker_main(e, tier, seed, from, to, emit, config)
         }
         "exec" => match arg_val(args, "--replay") {
             Some(p) => runner::exec_main(&engines(), p),
@@ -100,7 +104,7 @@ fn real_main(args: &[String]) -> i32 {
             let seed = arg_val(args, "--seed").and_then(|s| s.parse().ok()).unwrap_or_else(env_seed);
             let jobs = arg_val(args, "--jobs").and_then(|s| s.parse().ok()).unwrap_or(16);
             let runs = arg_val(args, "--runs").and_then(|s| s.parse().ok());
-            let opts = runner::Opts { tier, seed, jobs, runs, emit_hashes: false, write_evidence: !args.iter().any(|a| a == "--no-evidence") };
+            let opts = runner::Opts { tier, seed, jobs, runs, emit_hashes: false, write_evidence: !args.iter().any(|a| a == "--no-evidence"), config: None };
             runner::run_check(e, &opts).exit
         }
     }
@@ -115,11 +119,11 @@ fn selftest_determinism(args: &[String]) -> i32 {
         for seed in [1u64, 2, 0xdead_beef] {
             let a = runner::run_check(
                 e,
-                &runner::Opts { tier: Tier::Quick, seed, jobs: 1, runs: Some(runs), emit_hashes: true, write_evidence: false },
+                &runner::Opts { tier: Tier::Quick, seed, jobs: 1, runs: Some(runs), emit_hashes: true, write_evidence: false, config: None },
             );
             let b = runner::run_check(
                 e,
-                &runner::Opts { tier: Tier::Quick, seed, jobs: 16, runs: Some(runs), emit_hashes: true, write_evidence: false },
+                &runner::Opts { tier: Tier::Quick, seed, jobs: 16, runs: Some(runs), emit_hashes: true, write_evidence: false, config: None },
             );
             if a.exit == 2 || b.exit == 2 {
                 eprintln!("selftest: harness error for {} seed {}", e.id(), seed);
